@@ -341,11 +341,12 @@ func (e *env) waitTasksExceptCheckpoint() { e.waitTasks() }
 // gcSettle forces collection rounds until no further table cleanup deletes a file.
 func (e *env) gcSettle() {
 	e.logOp("gc-settle")
+	lib.GCSettle() // sentinel cleanups: the cleanup queue has drained three times
 	stable := 0
 	last := e.gfs.LogLen()
-	for i := 0; i < 40 && stable < 3; i++ {
+	for i := 0; i < 60 && stable < 5; i++ {
 		runtime.GC()
-		time.Sleep(300 * time.Microsecond)
+		time.Sleep(500 * time.Microsecond)
 		if n := e.gfs.LogLen(); n == last {
 			stable++
 		} else {
